@@ -73,7 +73,7 @@ def mon_C01(sc, trace, probes, info):
     # a run that ended at quiescence cannot leave an activity parked in a timed wait whose date can be reached
     env = info.get('env')
     if env is not None and (info.get('final') or [None])[0] == 90 and sc.get('till') is None:
-        for pid, (w, actor) in sorted(getattr(env, 'waiting', {}).items()):
+        for pid, (w, actor) in sorted(info.get('parked', {}).items()):
             if pid in starts:
                 w, t0 = starts[pid][2], starts[pid][3]
                 exp = expected_resume(w, t0)
